@@ -18,4 +18,6 @@ void put_cache (mpq_QSdata * p);
 void put_state (mpq_QSdata * p);
 void put_solution (mpq_QSdata * p);
 int qsx_more_commands (const char *c);
+void dump_api (mpq_QSdata * p);
+void qsx_dump_all (mpq_QSdata * p);
 #endif
